@@ -652,7 +652,11 @@ def ty_of_py(t, b: Built):
     if t in b.index:
         return ("cls", b.index[t])
     if hasattr(t, "__metadata__"):
-        raise ValueError("annotated type as key")
+        # (a refined type inside a Union key: the spec type it was built from, found by the objects' own equality)
+        try:
+            return b.spec_ty(t)
+        except Exception:  # noqa: BLE001
+            raise ValueError("annotated type as key")
     o = typing.get_origin(t)
     if o is list:
         return ("list", ty_of_py(t.__args__[0], b))
